@@ -46,7 +46,7 @@ CHECKS = {
  "C13": ("model_checking", TECH,
          "Every interleaving (choices cost nothing) of {start call k, release the next gated handler step of call k, fire the shutdown signal, offer a new connection} for 1..2 (thorough 3) unary/server-streaming calls on 1..2 connections, each event followed by quiescence in virtual time, runs on the real Server::serve_with_incoming_shutdown over in-memory pipes (fragmentation menu; signal and new connection in the same step under 4 RNG seeds; thorough: max_connection_age); RefShutdown: every call whose handler was invoked ends with its full outcome, nothing hangs, the serve future stays unresolved while accepted calls have steps outstanding and before any signal, resolves afterwards and never with Err, a connection offered after the signal never reaches a handler.",
          "Interleavings inside hyper/h2/tokio below event granularity follow the deterministic current-thread order (varied via fragmentation patterns and RNG seeds, not enumerated); clients drop their channels once their calls have finished.", "3/C13"),
- "C14": ("fault_enumeration", "exhaustive enumeration of fault scripts (connect fails / succeeds / established connection dropped / call) against the real Channel over an owned in-memory network in virtual time, with a reference model stepped in lock-step",
+ "C14": ("fault_enumeration", "exhaustive enumeration of fault scripts (connect fails for rotating reasons / succeeds / never answers / established connection dropped / call) against the real Channel over an owned in-memory network in virtual time, with a reference model stepped in lock-step; plus exhaustive discovery histories (insert / remove endpoint, call) of a balanced channel over loopback sockets against a set model",
          "Every canonical event script up to length 6 (thorough 9) over {call, connector starts failing, connector starts succeeding, peer drops the connection} x lazy/eager x initial connector mode x connector/pipe/timeout variants runs on the real Endpoint::connect_with_connector[_lazy] -> Channel -> hyper/h2 -> Server stack; every call outcome and the number of connector invocations must equal RefChannel's (answer when connected; one attempt per call while disconnected; UNAVAILABLE only to the triggering call; eager initial failure reported by connect; never a hang under the virtual-time horizon).",
          "Faults land at quiescent points (as the quantifier states); task interleavings inside hyper/h2/tokio follow the deterministic current-thread order.", "3/C14"),
  "C15": ("exploration", "exhaustive enumeration of the finite TLS configuration matrix with real handshakes on the real Endpoint/Server code over an owned in-memory network, against a boolean reference function",
